@@ -546,6 +546,12 @@ func h2Scenario1(seed int64, idx int, dir string, acts []h2Act, ca *harnessCA, c
 			A.wmu.Lock()
 			err = A.fr.WritePing(false, [8]byte{byte(a.N), 'p', 'i', 'n', 'g', 0, 0, 7})
 			A.wmu.Unlock()
+		case "unknown":
+			// an extension frame (ALTSVC, type 0xa) on stream 0
+			sc.log("a_unknown")
+			A.wmu.Lock()
+			err = A.fr.WriteRawFrame(http2.FrameType(0xa), 0, 0, []byte{0, 0, 'h', '2', '=', '"', ':', '4', '4', '3', '"'})
+			A.wmu.Unlock()
 		case "close":
 			// the sender ends its side of the connection (it goes on reading): what it has sent is still owed to the receiver
 			sc.log("a_close")
